@@ -32,6 +32,25 @@ type Case struct {
 	// go/ast.NewPackage, an importer and a universe scope: package names then carry Pkg objects whose
 	// Data is the imported package's scope, predeclared names carry off-tree universe objects.
 	Resolved bool `json:"resolved,omitempty"`
+	// LocalPaths: the file is decorated by an import-managing Decorator with ResolveLocalPath set and
+	// a resolver that reports the package's own path for every identifier that refers to a local
+	// object: identifiers then carry a Path, and must keep their objects all the same.
+	LocalPaths bool `json:"local_paths,omitempty"`
+}
+
+const selfPath = "example.com/self"
+
+// localResolver reports the local package path for identifiers bound to an object of the file.
+type localResolver struct{}
+
+func (localResolver) ResolveIdent(file *ast.File, parent ast.Node, parentField string, id *ast.Ident) (string, error) {
+	if _, isSel := parent.(*ast.SelectorExpr); isSel {
+		return "", nil
+	}
+	if id.Obj != nil {
+		return selfPath, nil
+	}
+	return "", nil
 }
 
 // ---- canonical signature of an identifier-resolution graph (generic over ast / dst by reflection) ----
@@ -188,6 +207,10 @@ func checkGraph(sub string) func(t h.TB, c Case) {
 			}
 			want := astSig(af)
 			dec := decorator.NewDecorator(fset)
+			if c.LocalPaths {
+				dec = decorator.NewDecoratorWithImports(fset, selfPath, localResolver{})
+				dec.ResolveLocalPath = true
+			}
 			var df *dst.File
 			h.Guard(t, sub, c, func() { df, err = dec.DecorateFile(af) })
 			if err != nil {
@@ -206,6 +229,17 @@ func checkGraph(sub string) func(t h.TB, c Case) {
 				if dec.Ast.Scopes[ds] != as {
 					h.Fail(t, sub, c, "%s: Scopes maps are not inverse", name)
 				}
+			}
+			if c.LocalPaths {
+				paths := 0
+				dst.Inspect(df, func(n dst.Node) bool {
+					if id, ok := n.(*dst.Ident); ok && id.Path != "" {
+						paths++
+					}
+					return true
+				})
+				h.LabelN("graph:identifiers-with-local-path", paths)
+				continue // (an import-managing restore would prune the unused imports of the generated file)
 			}
 			// restoring with Extras rebuilds an isomorphic graph on the ast side
 			r := decorator.NewRestorer()
@@ -529,9 +563,12 @@ func genGraph(sub string) func(t *rapid.T) (Case, bool) {
 		c := Case{Srcs: map[string]string{"a.go": string(src)}, From: from, Resolved: rapid.IntRange(0, 2).Draw(t, "resolved") == 0}
 		if c.Resolved {
 			h.Label("graph:resolved-with-importer")
+		} else if rapid.IntRange(0, 3).Draw(t, "localpaths") == 0 {
+			c.LocalPaths = true
+			h.Label("graph:local-paths")
 		}
 		if cyc && synth {
-			h.NonTrivial(sub, c.Srcs["a.go"], fmt.Sprint(c.Resolved))
+			h.NonTrivial(sub, c.Srcs["a.go"], fmt.Sprint(c.Resolved, c.LocalPaths))
 		}
 		h.Sample(sub, map[string]any{"from": from, "src": h.Trunc(string(src), 300)})
 		return c, true
